@@ -13,8 +13,9 @@
      optional repetition is outside);
    - the Comment rule cannot succeed without consuming;
    - (partial) no UnorderedGroup.
-   Regex terminals are treated as possibly matching the empty string when [rxn = true]; with
-   [rxn = false] the theorems need the oracle hypothesis [orc_pos] (every match is non-empty).
+   [rxn o] says whether the regex terminal with oracle id [o] is treated as possibly matching the empty
+   string; for the ids with [rxn o = false] the theorems need the oracle hypothesis that every match
+   is non-empty ([all_nullable]: no hypothesis; [none_nullable]: [orc_pos]).
    The analysis tables are computed by [analyse] and then CHECKED ([check]); the theorems only use
    the check. *)
 From TxV Require Import Core.Base Model.PegSyntax Model.Peg Proofs.PegProofs.
@@ -28,13 +29,13 @@ Definition rk (a : ana) (i : nat) : nat := nth i (a_rank a) 0.
 Definition hd_or {A} (d : A) (f : nat -> A) (l : list nat) : A := match l with e :: _ => f e | [] => d end.
 
 (* can return Ok with the position unchanged *)
-Definition null_local (rxn : bool) (a : ana) (nd : node) : bool :=
+Definition null_local (rxn : nat -> bool) (a : ana) (nd : node) : bool :=
   match n_kind nd with
   | KSeq => forallb (nl a) (n_kids nd)
   | KChoice => existsb (nl a) (n_kids nd)
   | KPlus => hd_or true (fun e => nl a e || tr a e) (n_kids nd)
   | KStr t _ => Nat.eqb (length t) 0
-  | KRegex _ => rxn
+  | KRegex o => rxn o
   | _ => true
   end.
 (* can return a truthy result with the position unchanged *)
@@ -68,22 +69,22 @@ Definition rank_ok (a : ana) (i : nat) (nd : node) : bool :=
   | _ => true
   end.
 
-Definition node_ok (rxn : bool) (a : ana) (i : nat) (nd : node) : bool :=
+Definition node_ok (rxn : nat -> bool) (a : ana) (i : nat) (nd : node) : bool :=
   implb (null_local rxn a nd) (nl a i) && implb (truthy_local a nd) (tr a i) && rank_ok a i nd.
 
-Fixpoint all_nodes_ok (rxn : bool) (a : ana) (i : nat) (l : list node) : bool :=
+Fixpoint all_nodes_ok (rxn : nat -> bool) (a : ana) (i : nat) (l : list node) : bool :=
   match l with
   | [] => true
   | nd :: l' => node_ok rxn a i nd && all_nodes_ok rxn a (S i) l'
   end.
 
-Definition check (rxn : bool) (a : ana) (g : grammar) : bool :=
+Definition check (rxn : nat -> bool) (a : ana) (g : grammar) : bool :=
   all_nodes_ok rxn a 0 (g_nodes g) &&
   match g_comments g with None => true | Some cm => negb (nl a cm) end.
 
 (* ---- computing the tables (least fixpoints by iteration; only [check] is trusted) *)
 Definition idxs (g : grammar) : list nat := seq 0 (length (g_nodes g)).
-Definition step_nt (rxn : bool) (g : grammar) (a : ana) : ana :=
+Definition step_nt (rxn : nat -> bool) (g : grammar) (a : ana) : ana :=
   mkAna (map (fun nd => null_local rxn a nd) (g_nodes g))
         (map (fun nd => truthy_local a nd) (g_nodes g)) (a_rank a).
 Fixpoint callable (a : ana) (kids : list nat) : list nat :=
@@ -99,17 +100,17 @@ Definition step_rk (g : grammar) (a : ana) : ana :=
   mkAna (a_null a) (a_truthy a)
         (map (fun nd => S (list_max (map (rk a) (rank_kids a nd)))) (g_nodes g)).
 Fixpoint iter {A} (n : nat) (f : A -> A) (x : A) : A := match n with 0 => x | S n' => iter n' f (f x) end.
-Definition analyse (rxn : bool) (g : grammar) : ana :=
-  let n := S (length (g_nodes g)) in
+Definition analyse (rxn : nat -> bool) (g : grammar) : ana :=
+  let n := S (2 * length (g_nodes g)) in
   let a0 := mkAna (map (fun _ => false) (g_nodes g)) (map (fun _ => false) (g_nodes g)) (map (fun _ => 0) (g_nodes g)) in
   iter n (step_rk g) (iter n (step_nt rxn g) a0).
 
-Definition terminating (rxn : bool) (g : grammar) : bool := check rxn (analyse rxn g) g.
+Definition terminating (rxn : nat -> bool) (g : grammar) : bool := check rxn (analyse rxn g) g.
 
 Definition rank_top (a : ana) : nat := S (list_max (a_rank a)).
 Definition fuel_bound_a (a : ana) (input : list N) : nat :=
   (2 * length input + 2) * rank_top a + rank_top a + length input + 3.
-Definition fuel_bound (rxn : bool) (g : grammar) (input : list N) : nat := fuel_bound_a (analyse rxn g) input.
+Definition fuel_bound (rxn : nat -> bool) (g : grammar) (input : list N) : nat := fuel_bound_a (analyse rxn g) input.
 
 (* ================================================================ oracle hypotheses *)
 Definition orc_sane (g : grammar) (input : list N) (orc : nat -> nat -> option nat) : Prop :=
@@ -122,11 +123,11 @@ Section Term.
 Variable g : grammar.
 Variable input : list N.
 Variable orc : nat -> nat -> option nat.
-Variable rxn : bool.
+Variable rxn : nat -> bool.
 Variable a : ana.
 Hypothesis Hchk : check rxn a g = true.
 Hypothesis Hsane : orc_sane g input orc.
-Hypothesis Hpos : rxn = false -> orc_pos orc.
+Hypothesis Hpos : forall o, rxn o = false -> forall p l, orc o p = Some l -> 0 < l.
 
 Notation parser := (nat -> bool -> st -> out) (only parsing).
 Notation len := (length input).
@@ -312,7 +313,7 @@ Proof.
     destruct (orc oid (pos s)) as [l|] eqn:E; [|now apply mono_reg_fail].
     pose proof (S1 _ _ _ E) as B. destruct (Nat.eqb l 0) eqn:Z.
     + split; [now apply mono_refl|]. split; [|discriminate].
-      intro R. apply Nat.eqb_eq in Z. subst l. pose proof (Hpos R _ _ _ E). lia.
+      intro R. apply Nat.eqb_eq in Z. subst l. pose proof (Hpos _ R _ _ E). lia.
     + apply Nat.eqb_neq in Z. split; [apply mono_set_pos; [exact T | lia | lia]|].
       split; intros; cbn; lia.
 Qed.
@@ -619,4 +620,294 @@ Proof.
         -- split; [split; [exact Ps | split; [exact C1 | exact K1]] | split; [apply Nat.le_refl | exact I1]].
 Qed.
 
+(* ================================================================ no Abort 0 *)
+Definition lvl (s : st) : nat := 2 * (len - pos s) + (if in_cmt s then 0 else 1).
+Definition below (s : st) (c : nat) (s0 : st) (n : nat) : Prop :=
+  lvl s < lvl s0 \/ (lvl s = lvl s0 /\ rk a c < rk a n).
+Definition rec_nab (s0 : st) (n : nat) (rec : parser) : Prop :=
+  forall c psq s, tinv s -> below s c s0 n -> rec c psq s <> Abort 0.
+
+Lemma lvl_mono s0 s : mono s0 s -> lvl s <= lvl s0.
+Proof. intros (_ & P & C). unfold lvl. rewrite C. lia. Qed.
+Lemma lvl_strict s0 s : mono s0 s -> pos s0 < pos s -> lvl s < lvl s0.
+Proof. intros ((Ps & _) & P & C) L. unfold lvl. rewrite C. lia. Qed.
+Lemma below_rank s0 s c n : mono s0 s -> rk a c < rk a n -> below s c s0 n.
+Proof. intros M R. pose proof (lvl_mono _ _ M). unfold below. lia. Qed.
+Lemma below_strict s0 s c n : mono s0 s -> pos s0 < pos s -> below s c s0 n.
+Proof. intros M L. left. now apply lvl_strict. Qed.
+
+Lemma comment_nonnull cm : g_comments g = Some cm -> nl a cm = false.
+Proof.
+  intro E. unfold check in Hchk. apply andb_true_iff in Hchk as [_ H2]. rewrite E in H2.
+  now apply negb_true_iff in H2.
+Qed.
+
+Section Nab.
+Variable rec : parser.
+Variable s0 : st.
+Variable n : nat.
+Hypothesis Hrec : rec_prog rec.
+Hypothesis Hnab : rec_nab s0 n rec.
+
+Lemma cmt_loop_nab cm : nl a cm = false -> in_cmt s0 = false -> forall k s,
+  tinv s -> in_cmt s = true -> pos s0 <= pos s -> len - pos s < k ->
+  cmt_loop input rec cm k s <> Abort 0.
+Proof.
+  intros Hcm I0. induction k as [|k IH]; intros s T IC P L; [lia|]. cbn [cmt_loop].
+  assert (B : below s cm s0 n).
+  { left. unfold lvl. rewrite IC, I0. destruct T as (Ps & _). lia. }
+  pose proof (Hnab cm false s T B) as NA. pose proof (Hrec cm false s T) as G.
+  destruct (rec cm false s) as [r s1|s1|w]; cbn in G; [| discriminate | congruence].
+  destruct G as (M & GN & _). specialize (GN Hcm).
+  pose proof (msw_mono s1 (proj1 M)) as M2. destruct M as (T1 & P1 & C1), M2 as (T2 & P2 & C2).
+  pose proof (proj1 T2) as Px. apply IH; [exact T2 | congruence | lia | lia].
+Qed.
+
+Lemma match_pre_nab k s : mono s0 s -> len - pos s < k -> match_pre g input rec k s <> Abort 0.
+Proof.
+  intros M0 L. unfold match_pre, parse_comments.
+  pose proof (msw_mono s (proj1 M0)) as M1. set (s1 := maybe_skip_ws input s) in *.
+  destruct (if skipws s1 then lookup (pos s1) (cpos s1) else None); [discriminate|].
+  destruct (in_cmt s1) eqn:IC; [discriminate|].
+  destruct (g_comments g) as [cm|] eqn:E; [|discriminate].
+  assert (I0 : in_cmt s0 = false).
+  { destruct M0 as (_ & _ & C0), M1 as (_ & _ & C1). congruence. }
+  pose proof (cmt_loop_nab cm (comment_nonnull cm E) I0 k (set_in_cmt true s1)) as NA.
+  destruct M0 as (_ & P0 & _), M1 as (T1 & P1 & _).
+  specialize (NA T1 eq_refl ltac:(cbn; lia) ltac:(cbn; lia)).
+  destruct (cmt_loop input rec cm k (set_in_cmt true s1)); [discriminate | discriminate | congruence].
+Qed.
+
+Lemma seq_loop_nab psq kids : forall acc s, mono s0 s ->
+  pos s0 < pos s \/ seq_rank_ok a (rk a n) kids = true ->
+  seq_loop rec psq kids acc s <> Abort 0.
+Proof.
+  induction kids as [|c kids IH]; intros acc s M D; cbn [seq_loop]; [discriminate|].
+  assert (B : below s c s0 n).
+  { destruct D as [D|D]; [now apply below_strict|]. cbn in D. apply andb_true_iff in D as [D _].
+    apply Nat.ltb_lt in D. now apply below_rank. }
+  pose proof (Hnab c psq s (proj1 M) B) as NA. pose proof (Hrec c psq s (proj1 M)) as G.
+  destruct (rec c psq s) as [r s1|s1|w]; cbn in G; [| discriminate | congruence].
+  destruct G as (M1 & GN & _). apply IH; [eapply mono_trans; eassumption|].
+  destruct D as [D|D]; [left; destruct M1 as (_ & P1 & _); lia|].
+  cbn in D. apply andb_true_iff in D as [_ D]. destruct (nl a c) eqn:Nc; [now right|].
+  left. specialize (GN eq_refl). destruct M as (_ & P & _). lia.
+Qed.
+
+Lemma choice_loop_nab kids : forallb (fun c => Nat.ltb (rk a c) (rk a n)) kids = true ->
+  forall s, mono s0 s -> choice_loop rec (pos s0) kids s <> Abort 0.
+Proof.
+  induction kids as [|c kids IH]; intros F s M; cbn [choice_loop]; [discriminate|].
+  cbn in F. apply andb_true_iff in F as [F1 F2]. apply Nat.ltb_lt in F1.
+  pose proof (Hnab c false s (proj1 M) (below_rank _ _ _ _ M F1)) as NA.
+  pose proof (Hrec c false s (proj1 M)) as G.
+  destruct (rec c false s) as [r s1|s1|w]; cbn in G; [| | congruence].
+  - destruct (is_none r); [|discriminate]. apply IH; [exact F2|]. eapply mono_trans; [exact M | apply G].
+  - apply IH; [exact F2|]. destruct G as (T1 & P1 & C1), M as ((Ps & _) & P & C).
+    split; [apply tinv_set_pos; [exact T1 | destruct s0; cbn in *; lia] | split; [apply Nat.le_refl | cbn; congruence]].
+Qed.
+
+Lemma rep_loop_nab e sep plus : tr a e = false -> rk a e < rk a n -> forall k first acc s,
+  mono s0 s -> (first = false -> pos s0 < pos s) -> len - pos s < k ->
+  rep_loop rec e sep plus k first acc s <> Abort 0.
+Proof.
+  intros He Re. induction k as [|k IH]; intros first acc s M F L; [lia|]. cbn [rep_loop].
+  assert (Helem : forall acc1 s1, mono s s1 ->
+    (match rec e false s1 with
+     | Ok r s2 => if truthy r then rep_loop rec e sep plus k false (acc1 ++ [r]) s2 else Ok (RList acc1) s2
+     | Fail s2 => if (plus && first)%bool then Fail (set_pos (pos s) s2) else Ok (RList acc1) (set_pos (pos s) s2)
+     | Abort w => Abort w end) <> Abort 0).
+  { intros acc1 s1 M1. pose proof (mono_trans _ _ _ M M1) as M01.
+    pose proof (Hnab e false s1 (proj1 M1) (below_rank _ _ _ _ M01 Re)) as NA.
+    pose proof (Hrec e false s1 (proj1 M1)) as G.
+    destruct (rec e false s1) as [r s2|s2|w]; cbn in G; [| | congruence].
+    - destruct (truthy r) eqn:Tr; [|discriminate]. destruct G as (M2 & _ & GT). specialize (GT He eq_refl).
+      pose proof (mono_trans _ _ _ M01 M2) as M02.
+      pose proof (proj1 (proj2 M)) as P. pose proof (proj1 (proj2 M1)) as P1.
+      pose proof (proj1 (proj2 M2)) as P2. pose proof (proj1 (proj1 M2)) as Px.
+      apply IH; [exact M02 | intros _; lia | lia].
+    - destruct (plus && first)%bool; discriminate. }
+  destruct sep as [sp|]; [|apply Helem, mono_refl, (proj1 M)].
+  destruct first; [apply Helem, mono_refl, (proj1 M)|].
+  pose proof (Hnab sp false s (proj1 M) (below_strict _ _ _ _ M (F eq_refl))) as NA.
+  pose proof (Hrec sp false s (proj1 M)) as G.
+  destruct (rec sp false s) as [sr s1|s1|w]; cbn in G; [| | congruence].
+  - apply Helem. apply G.
+  - rewrite andb_false_r. discriminate.
+Qed.
+
+Lemma body_nab k nd s : get_node g n = Some nd -> mono s0 s -> pos s = pos s0 -> len - pos s < k ->
+  body rec k nd s <> Abort 0.
+Proof.
+  intros Hn M0 Hp L. pose proof (node_rank _ _ Hn) as RK. pose proof (proj1 M0) as T.
+  unfold body, rank_ok in *. rewrite Hp. destruct (n_kind nd) eqn:K; try discriminate.
+  - pose proof (same_core_enter_ws nd s) as Ce.
+    assert (Me : mono s0 (enter_ws nd s)) by (apply (mono_core_r _ s); assumption).
+    pose proof (seq_loop_nab true (n_kids nd) [] (enter_ws nd s) Me (or_intror RK)) as NA.
+    destruct (seq_loop rec true (n_kids nd) [] (enter_ws nd s)) as [r s1|s1|w]; [| discriminate | congruence].
+    destruct r as [|t|[|x l]]; discriminate.
+  - pose proof (same_core_enter_ws nd s) as Ce.
+    assert (Me : mono s0 (enter_ws nd s)) by (apply (mono_core_r _ s); assumption).
+    pose proof (choice_loop_nab (n_kids nd) RK (enter_ws nd s) Me) as NA.
+    destruct (choice_loop rec (pos s0) (n_kids nd) (enter_ws nd s)) as [r s1|s1|w]; [| discriminate | congruence].
+    destruct (is_none r); discriminate.
+  - destruct (n_kids nd) as [|e l]; [discriminate|]. cbn [hd_or] in RK. apply Nat.ltb_lt in RK.
+    pose proof (Hnab e false s T (below_rank _ _ _ _ M0 RK)) as NA.
+    destruct (rec e false s); [discriminate | discriminate | congruence].
+  - destruct (n_kids nd) as [|e l]; [discriminate|]. cbn [hd_or] in RK.
+    apply andb_true_iff in RK as [Re He]. apply Nat.ltb_lt in Re. apply negb_true_iff in He.
+    pose proof (same_core_enter_eol nd s) as Ce.
+    assert (Me : mono s0 (enter_eol nd s)) by (apply (mono_core_r _ s); assumption).
+    assert (Pe : pos (enter_eol nd s) = pos s) by apply Ce.
+    pose proof (rep_loop_nab e (n_sep nd) false He Re k true [] (enter_eol nd s) Me ltac:(discriminate) ltac:(lia)) as NA.
+    destruct (rep_loop rec e (n_sep nd) false k true [] (enter_eol nd s)); [discriminate | discriminate | congruence].
+  - destruct (n_kids nd) as [|e l]; [discriminate|]. cbn [hd_or] in RK.
+    apply andb_true_iff in RK as [Re He]. apply Nat.ltb_lt in Re. apply negb_true_iff in He.
+    pose proof (same_core_enter_eol nd s) as Ce.
+    assert (Me : mono s0 (enter_eol nd s)) by (apply (mono_core_r _ s); assumption).
+    assert (Pe : pos (enter_eol nd s) = pos s) by apply Ce.
+    pose proof (rep_loop_nab e (n_sep nd) true He Re k true [] (enter_eol nd s) Me ltac:(discriminate) ltac:(lia)) as NA.
+    destruct (rep_loop rec e (n_sep nd) true k true [] (enter_eol nd s)); [discriminate | discriminate | congruence].
+  - pose proof (seq_loop_nab false (n_kids nd) [] s M0 (or_intror RK)) as NA.
+    destruct (seq_loop rec false (n_kids nd) [] s); [discriminate | discriminate | congruence].
+  - pose proof (seq_loop_nab false (n_kids nd) [] s M0 (or_intror RK)) as NA.
+    destruct (seq_loop rec false (n_kids nd) [] s); [discriminate | discriminate | congruence].
+Qed.
+
+End Nab.
+
+Definition Bnd (s : st) (c : nat) : nat := lvl s * rank_top a + rk a c + len + 3.
+
+Lemma nth_le_list_max l : forall i, nth i l 0 <= list_max l.
+Proof.
+  induction l as [|x l IH]; intro i.
+  - destruct i; cbn; lia.
+  - change (list_max (x :: l)) with (Nat.max x (list_max l)). destruct i as [|j]; cbn [nth]; [lia|].
+    specialize (IH j). lia.
+Qed.
+Lemma rk_lt_top c : rk a c < rank_top a.
+Proof. unfold rk, rank_top. pose proof (nth_le_list_max (a_rank a) c). lia. Qed.
+Lemma below_Bnd s c s0 n : below s c s0 n -> Bnd s c < Bnd s0 n.
+Proof.
+  unfold below, Bnd. pose proof (rk_lt_top c). intros [L|[E R]]; [nia | rewrite E; lia].
+Qed.
+
+Lemma term_parse_nab nid k psq s : term_parse input orc nid k psq s <> Abort 0.
+Proof.
+  unfold term_parse, nm_raise. cbv zeta. destruct k; try discriminate.
+  - destruct (Nat.eqb len (pos s)); discriminate.
+  - destruct (match oid with Some o => match orc o (pos s) with Some _ => true | None => false end
+                        | None => is_prefix s0 (skipn (pos s) input) end); discriminate.
+  - destruct (orc oid (pos s)) as [l|]; [destruct (Nat.eqb l 0)|]; discriminate.
+Qed.
+
+Theorem parse_terminates m f : forall nid psq s,
+  tinv s -> Bnd s nid <= f -> parse g input orc m f nid psq s <> Abort 0.
+Proof.
+  induction f as [|f IH]; intros nid psq s T B; [unfold Bnd in B; lia|]. cbn [parse].
+  destruct (get_node g nid) as [nd|] eqn:Hn; [|discriminate].
+  assert (Hnab : rec_nab s nid (parse g input orc m f)).
+  { intros c psq' s' T' Bl. apply IH; [exact T'|]. apply below_Bnd in Bl. lia. }
+  assert (Lk : len - pos s < f) by (unfold Bnd in B; lia).
+  destruct (is_match_kind (n_kind nd)).
+  - pose proof (match_pre_nab _ s nid (parse_prog m f) Hnab f s (mono_refl s T) Lk) as NA.
+    destruct (match_pre g input (parse g input orc m f) f s) as [r0 s1|s1|w]; [| discriminate | congruence].
+    pose proof (term_parse_nab nid (n_kind nd) psq s1) as NA2.
+    destruct (term_parse input orc nid (n_kind nd) psq s1); [discriminate | discriminate | congruence].
+  - cbn zeta. destruct (if m then clookup nid (pos s) (cache s) else None) as [[[|r] np]|]; try discriminate.
+    pose proof (body_nab _ s nid (parse_prog m f) Hnab f nd s Hn (mono_refl s T) eq_refl Lk) as NA.
+    destruct (body (parse g input orc m f) f nd s); [discriminate | discriminate | congruence].
+Qed.
+
+Theorem run_terminates_a c m f :
+  fuel_bound_a a input <= f -> run g c orc m f input <> Aborted 0.
+Proof.
+  intro L. unfold run.
+  assert (T0 : tinv (init_st c)).
+  { split; [cbn; lia | split; [intros nid p cr np E; discriminate E | intros k v E; discriminate E]]. }
+  assert (B0 : Bnd (init_st c) (g_top g) <= f).
+  { unfold Bnd, lvl, fuel_bound_a in *. cbn. pose proof (rk_lt_top (g_top g)). nia. }
+  pose proof (parse_terminates m f (g_top g) false (init_st c) T0 B0) as NA.
+  destruct (parse g input orc m f (g_top g) false (init_st c)); [discriminate | discriminate | congruence].
+Qed.
+
 End Term.
+
+(* ================================================================ the theorems, closed form *)
+Theorem run_terminates rxn g c orc m input f :
+  terminating rxn g = true -> orc_sane g input orc ->
+  (forall o, rxn o = false -> forall p l, orc o p = Some l -> 0 < l) ->
+  fuel_bound rxn g input <= f -> run g c orc m f input <> Aborted 0.
+Proof.
+  intros Ht Hs Hp L. unfold terminating in Ht. unfold fuel_bound in L.
+  exact (run_terminates_a g input orc rxn (analyse rxn g) Ht Hs Hp c m f L).
+Qed.
+
+(* every regex terminal treated as possibly matching the empty string: no hypothesis on matches *)
+Definition all_nullable (o : nat) : bool := true.
+Corollary run_terminates_rxn g c orc m input f :
+  terminating all_nullable g = true -> orc_sane g input orc ->
+  fuel_bound all_nullable g input <= f -> run g c orc m f input <> Aborted 0.
+Proof. intros Ht Hs L. apply (run_terminates all_nullable g c orc m input f Ht Hs); [discriminate | exact L]. Qed.
+
+(* every match non-empty ([orc_pos]): regex terminals are not nullable *)
+Definition none_nullable (o : nat) : bool := false.
+Corollary run_terminates_pos g c orc m input f :
+  terminating none_nullable g = true -> orc_sane g input orc -> orc_pos orc ->
+  fuel_bound none_nullable g input <= f -> run g c orc m f input <> Aborted 0.
+Proof.
+  intros Ht Hs Hp L. apply (run_terminates none_nullable g c orc m input f Ht Hs); [|exact L].
+  intros o _ p l E. exact (Hp o p l E).
+Qed.
+
+(* ---------------------------------------------------------------- witnesses at the boundary *)
+(* left recursion:  Model: A;  A: A 'x' | 'y';   (dumped by tools/pegdump.py) *)
+Definition g_leftrec : grammar := (mkGrammar [mkNode KSeq [1;5] None false [77;111;100;101;108]%N true false None None;
+  mkNode KChoice [2;4] None false [65]%N true false None None;
+  mkNode KSeq [1;3] None false []%N false false None None;
+  mkNode (KStr [120]%N None) [] None false []%N false false None None;
+  mkNode (KStr [121]%N None) [] None false []%N false false None None;
+  mkNode KEOF [] None false [69;79;70]%N false false None None] 0 None).
+
+Lemma leftrec_aborts input orc : forall f,
+  (forall psq s, parse g_leftrec input orc false f 1 psq s = Abort 0) /\
+  (forall psq s, parse g_leftrec input orc false (S f) 1 psq s = Abort 0).
+Proof.
+  induction f as [|f [IH1 IH2]].
+  - split; intros psq s; reflexivity.
+  - split; [exact IH2|]. intros psq s. cbn. rewrite IH1. reflexivity.
+Qed.
+
+Theorem leftrec_never_terminates c orc input f :
+  terminating all_nullable g_leftrec = false /\ run g_leftrec c orc false f input = Aborted 0.
+Proof.
+  split; [vm_compute; reflexivity|]. unfold run. destruct f as [|f]; [reflexivity|].
+  cbn. rewrite (proj1 (leftrec_aborts input orc f)). reflexivity.
+Qed.
+
+(* a repetition whose element can be truthy without consuming:  Model: ('y'* | 'b')* 'c';
+   the real interpreter loops forever; the model is out of fuel for every fuel up to the one tried *)
+Definition g_loop : grammar := (mkGrammar [mkNode KSeq [1;8] None false [77;111;100;101;108]%N true false None None;
+  mkNode KSeq [2;7] None false [77;111;100;101;108]%N true false None None;
+  mkNode KStar [3] None false []%N false false None None;
+  mkNode KChoice [4;6] None false []%N false false None None;
+  mkNode KStar [5] None false []%N false false None None;
+  mkNode (KStr [121]%N None) [] None false []%N false false None None;
+  mkNode (KStr [98]%N None) [] None false []%N false false None None;
+  mkNode (KStr [99]%N None) [] None false []%N false false None None;
+  mkNode KEOF [] None false [69;79;70]%N false false None None] 0 None).
+
+Lemma loop_aborts_1500 :
+  terminating all_nullable g_loop = false /\
+  run g_loop (mkConfig true [9;10;13;32]%N) (fun _ _ => None) false 1500 [99]%N = Aborted 0.
+Proof. vm_compute. split; reflexivity. Qed.
+
+(* non-vacuity: a grammar of the class (backtracking, repetition with separator), hypotheses satisfiable *)
+Lemma terminates_example :
+  terminating none_nullable g_ex = true /\
+  orc_sane g_ex [120;44;120;46]%N (fun _ _ => None) /\ orc_pos (fun _ _ => None) /\
+  accepts (run g_ex c_default (fun _ _ => None) true (fuel_bound none_nullable g_ex [120;44;120;46]%N) [120;44;120;46]%N) = true.
+Proof.
+  split; [vm_compute; reflexivity|]. split; [split; intros; discriminate|].
+  split; [intros o p l E; discriminate E | vm_compute; reflexivity].
+Qed.
